@@ -1,2 +1,6 @@
-import Uec.Model.Stack
-import Uec.Model.StackSpec
+import Uec.Props.C01
+import Uec.Props.C02
+import Uec.Props.C03
+import Uec.Props.C04
+import Uec.Props.C05
+import Uec.Model.Select
